@@ -4,6 +4,7 @@ import MechVerif.Driver.C15
 import MechVerif.Driver.C01
 import MechVerif.Driver.C03
 import MechVerif.Driver.C04
+import MechVerif.Driver.C11
 open MechVerif.Driver
 
 def dispatch (line : String) : String :=
@@ -15,6 +16,7 @@ def dispatch (line : String) : String :=
     | some "binop" | some "unop" => runC01 fields obs
     | some "index" => runC03 fields obs
     | some "assign" => runC04 fields obs
+    | some "concat" => runC11 fields obs
     | some "crc" | some "dmg" | some "sweep" | some "rt" | some "instrs" => runC07 fields obs
     | _ => ("bad-proto", "bad-proto", "-")
   m ++ "\t" ++ v ++ "\t" ++ r
